@@ -645,8 +645,11 @@ func genCfg(r *rand.Rand, adversarial bool) rcfg {
 	for i, k := range syms {
 		if withSink && i == 0 {
 			rows := genRows(r, 9, 12)
-			if len(rows) < 2 && r.Intn(4) > 0 {
-				rows = append(rows, genRow(r, 12)+"k", genRow(r, 12)+"m")
+			if len(rows) < 5 && r.Intn(4) > 0 {
+				// enough content for several pages
+				for len(rows) < 5+r.Intn(3) {
+					rows = append(rows, genRow(r, 9)+"klm"[:1+r.Intn(3)])
+				}
 			}
 			if len(rows) == 0 {
 				rows = []string{"z"}
@@ -758,12 +761,12 @@ func genCfg(r *rand.Rand, adversarial bool) rcfg {
 		c.size = int64(base + r.Intn(nav+maxRow+6)) // tight: around the point where rendering starts to work
 	case x < 17:
 		// aim at k pages
-		k := 2 + r.Intn(3)
-		per := sinkTotal / k
+		k := 2 + r.Intn(5)
+		per := sinkTotal/k - 6
 		if per < maxRow {
 			per = maxRow
 		}
-		c.size = int64(base + nav + 2 + per + r.Intn(5))
+		c.size = int64(base + nav + 2 + per + r.Intn(4))
 	default:
 		c.size = int64(base + sinkTotal + r.Intn(nav+8))
 	}
